@@ -75,7 +75,7 @@ LATER = {
  "C01": "Later additions: forged kinds r / s / t0 / t1 / x (signed extra members, tampered copies, cross-type replay), chains through recovers that re-commit to used commitments, every single protocol-version lookup of a resolution failing in turn (short chains on valid / invalid creates x every forged operation).",
  "C02": "Later additions: three- and four-way competitions, refused competitors carrying the genuine next commitment, version-id agreement across store orders, operations delivered by the caller instead of the store, a stored create the applier refuses, histories of 13 / 16 operations, a hostile second protocol version.",
  "C03": "Later additions: phases under a hostile second protocol version (V), with signed windows longer than the delta (W), with an operation of unknown protocol version (X), with every single version lookup failing in turn (K), on full-width uint64 coordinates (Z); one processor instance resolving twice; updates with two defects at once.",
- "C04": "Later additions: unpublished extensions stamped earlier than the anchored operations, recover states compared with the reference, recovers re-committing to used update commitments (published / unpublished, also on full-width coordinates), operations of the deactivated history supplied by the caller, two protocol versions.",
+ "C04": "Later additions: unpublished extensions stamped earlier than the anchored operations, recover states compared with the reference, recovers re-committing to used update commitments (published / unpublished, also on full-width coordinates), operations of the deactivated history supplied by the caller, a created document that also carries an alias and a foreign member (recover leaves nothing of them), two protocol versions.",
  "C05": "Later additions: 42 configurations incl. the genesis time of the version, negative bounds, a later version with another delta in force at the anchoring time, every single version lookup failing in turn under such a version.",
  "C06": "Later additions: caller-supplied operations in both option orders, nil options, UTC-offset / fractional spellings of every cut time, long-form DIDs through REST, a store outage after a cut resolution, a store handing out its own slice with a second resolution, version-id cuts on full-width coordinates.",
  "C07": "Later additions: every token of the number grammar over small parts, numbers at formatting boundaries, an interleaved canonicalization.",
@@ -84,8 +84,8 @@ LATER = {
  "C10": "Later additions: two-version DocumentHandler intake, padded requests and escaped-character deltas at the limits, wire-smaller-than-canonical deltas, respelled base64 hash fields and signed-data members, extra signed members, a failing version lookup after an accepted submission.",
  "C11": "Later additions: last-second windows, one signer object across requests, requests on a DID with an empty document, exact-fit limits, patch lists with verbatim repeats.",
  "C12": "Later additions: builder-level pairings, nonce dimension, delta-less and unpublished cycle closers, every cycle history next to an operation of unknown protocol version.",
- "C13": "Later additions: rich documents, refused batch before each round trip, another batch in between, alternate-source read-back.",
- "C14": "Later additions: 6 alternate-source modes, ordered pairs of transactions on one provider, corrupt local copy with an oversize alternate copy, anchor-string grammar product, consistent duplication, two-member gzip.",
+ "C13": "Later additions: rich documents, refused batch before each round trip, another batch in between, alternate-source read-back, creates built with the second of two allowed algorithms.",
+ "C14": "Later additions: 6 alternate-source modes, ordered pairs of transactions on one provider, corrupt local copy with an oversize alternate copy, anchor-string grammar product, consistent duplication, two-member gzip, well-formed proofs of an operation type the index has none of.",
  "C15": "Later additions: real-writer intake family, create whose delta does not apply, equivalent references that contain the canonical one.",
  "C16": "Later additions: protocol-version lookup faults, a not-yet-valid operation (batch refused, stays queued), the writer's own goroutine (Start) with real timers (safety only).",
  "C17": "Later additions: 36-patch alphabet incl. JSON remove / move / copy, constructor and byte routes, sized sections 1..9 with removal lists longer than the section, content classes.",
